@@ -47,6 +47,7 @@ type roNal struct {
 type roMsg struct {
 	K    string  `json:"k"` // vsh ash v a
 	Ver  int     `json:"ver"`
+	Sv   int     `json:"sv,omitempty"` // vsh: version of the sps (and vps) when it is not Ver - a header that changes the pps only
 	Key  bool    `json:"key"`
 	Cts  int     `json:"cts"`
 	Nals []roNal `json:"nals"`
@@ -393,8 +394,12 @@ func roBuildMsg(w *roWorld, m *roMsg, ts uint32) base.RtmpMsg {
 	typ := uint8(base.RtmpTypeIdVideo)
 	switch m.K {
 	case "vsh":
+		sv := m.Ver
+		if m.Sv > 0 {
+			sv = m.Sv
+		}
 		if w.v == "avc" {
-			sps, pps := roPs("avc", "sps", m.Ver), roPs("avc", "pps", m.Ver)
+			sps, pps := roPs("avc", "sps", sv), roPs("avc", "pps", m.Ver)
 			p = []byte{0x17, 0, 0, 0, 0, 1, sps[1], sps[2], sps[3], 0xff, 0xe1, byte(len(sps) >> 8), byte(len(sps))}
 			p = append(p, sps...)
 			p = append(p, 1, byte(len(pps)>>8), byte(len(pps)))
@@ -408,6 +413,9 @@ func roBuildMsg(w *roWorld, m *roMsg, ts uint32) base.RtmpMsg {
 			p = append(p, 3)
 			for i, t := range []string{"vps", "sps", "pps"} {
 				b := roPs("hevc", t, m.Ver)
+				if t != "pps" {
+					b = roPs("hevc", t, sv)
+				}
 				p = append(p, byte(0x20+i), 0, 1, byte(len(b)>>8), byte(len(b)))
 				p = append(p, b...)
 			}
